@@ -22,8 +22,10 @@ def build(ctx):
     exes = ctx.build_many([
         dict(name="h15", sources=["h15.cpp"], flags=flags, opt="-O2", ndebug=True),
         dict(name="h15a", sources=["h15.cpp"], flags=flags, opt="-O1", asan=True, ndebug=False),
+        # hook H9: ItemStash with a 256-byte initial buffer (reallocated every few insertions instead of after 1 MiB)
+        dict(name="h15s", sources=["h15.cpp"], flags=flags + ["-DOSMIUM_VERIF_ITEM_STASH_BUFFER_SIZE=256"], opt="-O1", asan=True, ndebug=False),
     ])
-    return {"h15": exes[0], "h15a": exes[1]}
+    return {"h15": exes[0], "h15a": exes[1], "h15s": exes[2]}
 
 
 def run(ctx):
@@ -33,6 +35,7 @@ def run(ctx):
     ctx.run_harness(exes["h15"], ["--part", "jobs"], shards=16)
     ctx.run_harness(exes["h15"], ["--part", "relmap"], shards=16)
     ctx.run_harness(exes["h15a"], ["--part", "jobs", "--subset", "asan"], shards=16)
+    ctx.run_harness(exes["h15s"], ["--part", "jobs", "--subset", "stash"], shards=16)
     ctx.assume("IdSetSmall: size(), iteration order and get_binary_search() are only demanded exact when the documented "
                "precondition holds (after sort_unique()/merge_sorted()/clear(), or ids set in strictly ascending order; setting the "
                "same id twice in a row is a no-op as pinned by the repo test); otherwise membership, emptiness and size bounds")
